@@ -262,4 +262,18 @@ def stencil(eq, mesh, spec):
     return out
 
 
-EXTRACTORS = {"stencil": stencil, "wallinfo": wallinfo, "perp": perp, "onsurface": onsurface, "contours": contours, "profiles": profiles, "fieldpts": fieldpts, "beta": beta, "bpsign": bpsign, "eqinfo": eqinfo, "regions": regions, "meshmeta": meshmeta}
+def gradpsi(eq, mesh, spec):
+    """centred finite differences of the equilibrium's psi(R, Z) at every output location (independent of Bp_R / Bp_Z)"""
+    out = {}
+    h = 1.0e-5
+    for loc in ("centre", "xlow", "ylow"):
+        R, Z = getattr(mesh.Rxy, loc), getattr(mesh.Zxy, loc)
+        if R is None or Z is None:
+            continue
+        with np.errstate(all="ignore"):
+            out[loc] = {"psiR": np.array((eq.psi(R + h, Z) - eq.psi(R - h, Z)) / (2 * h), dtype=float),
+                        "psiZ": np.array((eq.psi(R, Z + h) - eq.psi(R, Z - h)) / (2 * h), dtype=float)}
+    return out
+
+
+EXTRACTORS = {"gradpsi": gradpsi, "stencil": stencil, "wallinfo": wallinfo, "perp": perp, "onsurface": onsurface, "contours": contours, "profiles": profiles, "fieldpts": fieldpts, "beta": beta, "bpsign": bpsign, "eqinfo": eqinfo, "regions": regions, "meshmeta": meshmeta}
